@@ -30,6 +30,8 @@ package syncer
 //@   ensures err == nil && IsInternal(result1) ==> AsInternal(result1).Hash == node.IHash(AsInternal(result1))
 //@   ensures err == nil && IsLeaf(result1) ==> result1.Hash == node.LHash(AsLeaf(result1))
 //@   ensures err == nil ==> depth <= maxProofDepth
+//@   precall verifyResult\)\.addLeafToWriteLog$ :: (defined(nd) && argIs(0, nd.LeafNode) && proof.V == 0) || (defined(ptr) && argIs(0, ptr) && ptr.Clean)
+//@   note write log of a verified proof: an entry is logged only for a pointer this invocation built and hashed itself, or - in version 0 proofs only - for the leaf serialized inside an internal node (which that node's recomputed hash covers); in version 1 the inline leaf is NOT hash-bound (it is replaced by the separately verified child) and is never logged
 //@   note every full entry is decoded, its children are verified recursively and attached, and only then is its hash recomputed; hash-only entries carry no node
 
 //@ func ProofVerifier.verifyProofOpts
